@@ -193,7 +193,7 @@ def run(ctx):
     sub = type(ctx)(ctx.prop, ctx.tier, ctx.facts, ctx.config)
     C04.run(sub)
     for v in sub.violations:
-        if v["rule"] == "R3":
+        if v["rule"] == "R3" or (v["rule"] == "R2" and v["key"].startswith("merge:field:")):
             ctx.violation("R4", "reader:" + v["key"], v["msg"], v["where"], v["witness"])
-    if not [v for v in sub.violations if v["rule"] == "R3"]:
+    if not [v for v in sub.violations if v["rule"] == "R3" or (v["rule"] == "R2" and v["key"].startswith("merge:field:"))]:
         ctx.ok("R4", "reader:newest-revision-wins-across-maps", "C04-R3 holds")
